@@ -41,7 +41,7 @@ def required_counters(tier):
         "form.suffix": 300,
         "form.plain.bound": 200,
         "cand.none_nodes": 50,
-        "cand.empty_containers": 50,
+        "cand.empty_containers": 50, "leaftype.pair": 300,
         "strings.fuzzed": 1000,
         "strings.valueerror": 200,
         "strings.accepted": 200,
@@ -132,25 +132,39 @@ def run_case(rec, rng, rngkey=None):
         x = perturb(rng, rng.choice((t, s)))
     else:
         x = small_tree(rng, 3)
-    leaftype = int if rng.random() < 0.8 else __import__("typing").Any
-    desc = {"t": GT.describe(t), "s": GT.describe(s), "x": GT.describe(x), "form": form, "rngkey": rngkey}
+    # leaf type of the CANDIDATE annotation: int (structure decides alone), Any, or a container
+    # leaf type tuple[int, int] - then the candidate's leaves are 2-tuples, which are leaves for
+    # the leaf-type-aware flattening but would be containers for a naive one
+    lt = rng.choice(("int", "int", "int", "any", "pair", "pair"))
+    if lt == "pair":
+        x = GT.map_leaves(x, lambda l: (l, l + 1) if isinstance(l, int) and not isinstance(l, bool) else l, is_leaf=isl)
+    leaftype = {"int": int, "any": __import__("typing").Any, "pair": tuple[int, int]}[lt]
+    is_pair = lambda y: type(y) is tuple and len(y) == 2 and all(isinstance(e, int) for e in y)
+    cand_isl = {"int": isl, "any": None, "pair": is_pair}[lt]
+    desc = {"t": GT.describe(t), "s": GT.describe(s), "x": GT.describe(x), "form": form, "leaftype": lt, "rngkey": rngkey}
 
     def body():
         bound = {}
         for name, tree in (("T", t), ("S", s)):
-            got = real.check(tree, jaxtyping.PyTree[leaftype, name])
+            got = real.check(tree, jaxtyping.PyTree[int, name])
             if got != "ok":
                 return ("binder", name, got)
             if tree is not None:
-                bound[name] = TM.struct(tree, isl if leaftype is int else None)
-        exp, newb = ("ok", None) if x is None else expected(form, bound, TM.struct(x, isl if leaftype is int else None))
+                bound[name] = TM.struct(tree, isl)
+        if x is None:
+            exp, newb = "ok", None
+        else:
+            exp, newb = expected(form, bound, TM.struct(x, cand_isl))
+            if lt == "pair" and exp == "ok" and not all(is_pair(l) for l in TM.leaves(x, cand_isl)):
+                exp, newb = "no", None  # a leaf that is not a pair of ints fails the leaf type
         got = real.check(x, jaxtyping.PyTree[leaftype, form])
         rs, rv, rt = real.bindings()
         names = set(bound) | ({newb[0]} if (newb and got == "ok") else set())
         return ("cand", exp, got, set(rt), names)
 
     out = real.in_block_context(body)
-    rec.case((desc["t"], desc["s"], desc["x"], form), nontrivial=TM.depth(TM.struct(x, isl)) >= 2 or " " in form)
+    rec.count("leaftype." + lt)
+    rec.case((desc["t"], desc["s"], desc["x"], form, lt), nontrivial=TM.depth(TM.struct(x, isl)) >= 2 or " " in form)
     if out[0] == "binder":
         rec.violation("binder", desc, f"binding {out[1]} to a tree of ints answered {out[2]}", mechanism="binder-" + out[2])
         return
